@@ -30,8 +30,9 @@ func init() {
 			"R2": "gate: wrapped call dominated by — and only by — the ok edge of smpeer.FromContext(c.Context()); FromContext ok = type assertion on the private key",
 			"R3": "smpeer.NewContext only at sites feeding SetContext, dominated by successful Parse (and successful success-CEA write on the server)",
 			"R4": "built-in keys (names and indexes) are refused by StateMachine.HandleFunc / HandleIdx",
+			"R5": "the state machine's ServeDIAM hands every message, unfiltered, to its mux",
 		},
-		MinInstances: map[string]int{"R1": 4, "R2": 2, "R3": 2, "R4": 2},
+		MinInstances: map[string]int{"R1": 4, "R2": 2, "R3": 2, "R4": 2, "R5": 1},
 		Assumptions: []string{"unexported identifiers (StateMachine.mux, smpeer.metadataKey) are inaccessible outside their package (language guarantee)",
 			"context.WithValue/Value contract"},
 	})
@@ -485,6 +486,26 @@ func runC10(c *Ctx) {
 
 	// ---- R4 ----
 	c.c10Refusals()
+
+	// ---- R5: once the exchange succeeded, every matching message reaches the application's handler ----
+	// structural part: the state machine's own ServeDIAM hands every message, unfiltered, to its mux
+	if sd := c.P.Method("diam/sm", "StateMachine", "ServeDIAM"); sd != nil {
+		key := fname(sd) + ":forwards-every-message"
+		isFwd := func(in ssa.Instruction) bool {
+			call, ok := in.(*ssa.Call)
+			if !ok || !flow.IsCallTo(call, pkgDiam, "ServeMux", "ServeDIAM") || len(call.Call.Args) != 3 {
+				return false
+			}
+			return len(sd.Params) == 3 && call.Call.Args[1] == ssa.Value(sd.Params[1]) && call.Call.Args[2] == ssa.Value(sd.Params[2])
+		}
+		if p := flow.PathAvoiding(sd, nil, flow.IsReturn, isFwd); p != nil {
+			r.Fail("R5", key, c.fpos(sd), "a message can leave the state machine's ServeDIAM without being handed to its mux: application handlers registered for it are not invoked although the peer completed the capabilities exchange", c.witness(p)...)
+		} else {
+			r.Ok("R5", key, c.fpos(sd), "every path hands the received (conn, message) to the state machine's mux")
+		}
+	} else {
+		r.Undecided("R5", "role:StateMachine.ServeDIAM", "-", "(*StateMachine).ServeDIAM not found")
+	}
 }
 
 func errEdgeTested(call *ssa.Call) bool { return len(errorEdgeBlocks(call)) > 0 }
